@@ -68,16 +68,37 @@ def _pick_tokens(inner):
     return [toks[0], toks[-1]]
 
 
-def _wrap(job):
+def _wrap(job, quick=False):
     """Build the C03 instance and wrap it (inside the worker).  Returns a C04Inst, or a string saying why the
     instance is not covered."""
     def make():
         inner = job.make()
-        return wrap_inst(inner, job.mode)
+        return wrap_inst(inner, job.mode, quick)
     return make
 
 
-def wrap_inst(inner, mode):
+def _io_lcm(i, o):
+    import math
+    l = i * o // math.gcd(i, o)
+    if l // i < 2:
+        l *= 2
+    if l // o < 2:
+        l *= 2
+    return l
+
+
+def _quick_twin(inner):
+    """Quick tier, mode A: the handshake logic does not depend on the lane/bit order, so the `reverse` /
+    lsb-first twins of an instance are left to the thorough tier (C03 compares them in every tier)."""
+    lo = inner.lean_open.split()
+    if lo[0] in ("up", "down", "strideup", "stridedown") and ",reverse" in inner.name:
+        return True
+    if lo[0] == "gearbox" and lo[3] == "0" and _io_lcm(int(lo[1]), int(lo[2])) <= 6:
+        return True
+    return False
+
+
+def wrap_inst(inner, mode, quick=False):
     lo = getattr(inner, "lean_open", "")
     if lo.split()[:1] == ["mux"]:
         return c04lib.RouteInst(inner, "mux")
@@ -90,6 +111,8 @@ def wrap_inst(inner, mode):
         return "%s (%s): no C04 theorem" % (inner.name, lo)
     if inner.name.endswith("/allflags"):
         return "%s: same element as the reduced-alphabet instance" % inner.name
+    if quick and mode == "A" and _quick_twin(inner):
+        return "%s: lane/bit-order twin, thorough tier only" % inner.name
     return C04Inst(inner, tokens=_pick_tokens(inner) if mode == "A" else None, **b)
 
 
@@ -132,7 +155,7 @@ def jobs(tier):
                 J.append(Job("B0", _wrap(job), cycles=job.kw.get("cycles", 3000), runs=job.kw.get("runs", 1)))
             continue
         if job.mode == "A":
-            J.append(Job("A", _wrap(job), max_states=min(job.kw.get("max_states", 20000), 20000 if quick else 400000),
+            J.append(Job("A", _wrap(job, quick), max_states=min(job.kw.get("max_states", 20000), 20000 if quick else 400000),
                          deadline_s=40 if quick else 400))
         else:
             J.append(Job("B", _wrap(job), cycles=job.kw.get("cycles", 3000), runs=min(job.kw.get("runs", 1), 2),
